@@ -18,7 +18,7 @@ ASSUMPTIONS = ['binary64 arithmetic is exact on the generated durations (multipl
                'object identity modelled as insertion index; relation depth <= 300 in generated programs (Python recursion limit is outside the model)']
 RULE = ('random build programs (1-12 commands, 1-4 qubits, 26 operation classes weighted, durations from {0,.25,.5,1,2,3,5}, relation none 55% / explicit 40% / dangling 5%, '
         'nesting depth <= 2, repetition counts 1-3) x random global duration settings; observed plain (operations then duration), duration-first, unrolled, unrolled twice. '
-        'non-trivial: >= 2 leaves and (a nested block or an explicit relation or two operations sharing a qubit); distinct by hash of the case')
+        'non-trivial: >= 2 leaves and (a nested block or an explicit relation or two operations sharing a qubit); distinct by hash of the case Plus ~13% structured shapes (coregen.gen_structured: parallel first blocks of unequal length under two levels of repetition with a follower of the first, a repeated block starting with a plain operation and containing a repeated block, two relation branches of unequal depth and length meeting through a barrier, a long chain beside a short operation followed by a repeated block, an early-starting operation in a doubly nested block).')
 
 
 def gen_cases(rng, tier):
